@@ -8,6 +8,34 @@ fn vfile(s: &str) -> v::VFile {
     (num(p[0]), num(p[1]), (hex(p[2]), num(p[3])), (hex(p[4]), num(p[5])))
 }
 
+/// Build table file 1 from entries `uk:seq:op:vv` laid out in data blocks per `shape` (see the table_get command).
+fn build_table(shape: &str, entries: &[&str]) -> Option<raindb::DbOptions> {
+    let shape: Vec<usize> = shape.split(',').map(|x| num(x) as usize).collect();
+    let fs = std::sync::Arc::new(raindb::fs::InMemoryFileSystem::new());
+    let o = v::options_with(fs, 400);
+    let mut ends = vec![];
+    let mut acc = 0;
+    for c in &shape {
+        acc += c;
+        ends.push(acc - 1);
+    }
+    let mut owned: Vec<(Vec<u8>, u64, bool, Vec<u8>)> = vec![];
+    for (i, e) in entries.iter().enumerate() {
+        let p: Vec<&str> = e.split(':').collect();
+        let mut val = hex(p[3]);
+        if ends.contains(&i) {
+            val.resize(420, 0xaa);
+        }
+        owned.push((hex(p[0]), num(p[1]), p[2] == "1", val));
+    }
+    let ents: Vec<(&[u8], u64, bool, &[u8])> = owned.iter().map(|e| (e.0.as_slice(), e.1, e.2, e.3.as_slice())).collect();
+    if v::table_build(&o, &ents) {
+        Some(o)
+    } else {
+        None
+    }
+}
+
 fn join(v: &[u64]) -> String {
     v.iter().map(|x| x.to_string()).collect::<Vec<_>>().join(",")
 }
@@ -118,6 +146,31 @@ fn main() {
             println!("inputs0={}", join(&r.0));
             println!("inputs1={}", join(&r.1));
             println!("grandparents={}", join(&r.2));
+        }
+        // table_iter ops targetU:seq shape uk:seq:op:vv ...
+        "table_iter" => {
+            let t = key(a[2]);
+            let o = match build_table(a[3], &a[4..]) {
+                Some(o) => o,
+                None => {
+                    println!("cursor=build-failed");
+                    return;
+                }
+            };
+            let ops: Vec<&str> = a[1].split(',').collect();
+            match v::table_iter_cursor(&o, &ops, (&t.0, t.1)) {
+                Some(c) => println!(
+                    "cursor={}",
+                    c.iter()
+                        .map(|x| match x {
+                            Some((k, s, val)) => format!("{}:{}:{:02x}", tohex(k), s, val),
+                            None => "none".to_string(),
+                        })
+                        .collect::<Vec<_>>()
+                        .join(",")
+                ),
+                None => println!("cursor=open-failed"),
+            }
         }
         // table_get targetU:seq shape(c,c,..) uk:seq:op:vv ...   (entries in sorted order; blocks per shape)
         "table_get" => {
